@@ -80,8 +80,8 @@ PROPS = {
                  "publish in a fresh process, and one publish per enumerated writer-fault position. one evaluation = one simulated Publish. distinct_nontrivial = distinct "
                  "contended-schedule hashes of variant runs that deviated from the default schedule plus distinct (document, options, k, jobs, sticky) fault injections that fired."),
         "tiers": {
-            "quick": {"cases": 160, "wall_s": 90, "seed": 1, "minimise_s": 40, "case_budget_s": 120},
-            "thorough": {"cases": 12000, "wall_s": 1800, "seed": 1001, "minimise_s": 120, "case_budget_s": 300},
+            "quick": {"cases": 160, "wall_s": 90, "seed": 1, "minimise_s": 40, "case_budget_s": 300, "chunk": 60},
+            "thorough": {"cases": 12000, "wall_s": 1800, "seed": 1001, "minimise_s": 120, "case_budget_s": 600, "chunk": 60},
         },
         "probes_wanted": ["jobs>1", "variants_compared", "fresh_process_compared", "writer_failed_with_jobs>1", "producer_left_blocked_after_failure", "files"],
         "shrink_lists": [["publish", "variants"], ["publish", "faults"]],
@@ -152,7 +152,7 @@ PROPS = {
         "level": "fault_enumeration",
         "design_ref": "DESIGN.md §5 C01",
         "technique": "deterministic simulation of the stream seam: Encoder -> simulated writer / bounded pipe with scheduled ends -> simulated reader -> Decoder; writer failure injected at every write call",
-        "level_text": ("For every generated document (built through the public API over the legal alphabet) the writer-fault position is enumerated completely: the k-th Write fails "
+        "level_text": ("For every generated document (built through the public API over the legal alphabet) the writer-fault position is enumerated (every k for documents up to 48 writes; beyond that the first 16, the last 8 and every fifth): the k-th Write fails "
                        "(transient, sticky, short write) for every k, and Encode must either fail or have written text that still decodes to the identical document. Fault-free "
                        "round trips run under several reader delivery plans (whole, 1-byte, random chunks, zero-byte reads, data+EOF) and through a bounded pipe whose two ends are "
                        "goroutines scheduled by the seeded scheduler. Documents are sampled by seed."),
